@@ -1,14 +1,19 @@
 (* Correspondence runner for bundles and the verification cache (C13, C14). *)
 From Coq Require Export List NArith ZArith Bool.
-From Mac Require Export Model.BundleM Model.BundleOps Corr.Transport.
+From Mac Require Export Model.BundleM Model.BundleOps Model.BundleHeap Corr.Transport.
 From Mac Require Import Proofs.CacheProofs.
 Export ListNotations.
 
-Inductive bcase := KBun (T : tables) (ops : list bop) (obs : list (list Z)).
+Inductive bcase :=
+| KBun (T : tables) (ops : list bop) (obs : list (list Z))
+| KBunH (T : tables) (ops : list bop) (obs : list (list Z)).   (* evaluated on the heap model (object sharing): Model/BundleHeap.v *)
 Definition flat (l : list (list Z)) : list Z := flat_map (fun o => Z.of_nat (List.length o) :: o) l.
 (* besides the observations: the recorded direct-verification table must be key-sound on the queries the scenario
    makes through a cache (the hypothesis of run_transparent_check, discharged per scenario by computation) *)
 Definition model_out (k : bcase) : list Z :=
-  match k with KBun T ops _ => flat (run_bundle T ops) ++ [if key_sound_list (t_v T) (queries T ops) then 1%Z else 0%Z] end.
-Definition obs_out (k : bcase) : list Z := match k with KBun _ _ o => flat o ++ [1%Z] end.
+  match k with
+  | KBun T ops _ => flat (run_bundle T ops) ++ [if key_sound_list (t_v T) (queries T ops) then 1%Z else 0%Z]
+  | KBunH T ops _ => flat (hrun T ops) ++ [1%Z]
+  end.
+Definition obs_out (k : bcase) : list Z := match k with KBun _ _ o => flat o ++ [1%Z] | KBunH _ _ o => flat o ++ [1%Z] end.
 Definition run (l : list bcase) := mismatches model_out obs_out l.
